@@ -32,8 +32,8 @@ RULE = ("case = (R, P, variant, rmin, pmin, block of failure subsets); non-trivi
 ASSUMPTIONS = ["NaN rules apply to every evaluator call of a run (same failure pattern at every point)"]
 EXHAUSTIVE = {"quick": True, "thorough": True}
 BOUNDS = {"quick": {"exhaustive_R_P": [3, 2]}, "thorough": {"exhaustive_R_P": [3, 3]}}
-REQUIRED = {"quick": {"flags_checked": 8000, "gate_absent_checked": 1500, "grad_entries_compared": 3000, "differential_compared": 300, "garbage_compared": 300, "exit_code_checked": 94, "__nontrivial__": 300},
-            "thorough": {"flags_checked": 400000, "gate_absent_checked": 80000, "grad_entries_compared": 100000, "differential_compared": 8000, "garbage_compared": 8000, "exit_code_checked": 1906, "__nontrivial__": 3000}}
+REQUIRED = {"quick": {"flags_checked": 8000, "gate_absent_checked": 1500, "grad_entries_compared": 3000, "differential_compared": 300, "garbage_compared": 300, "exit_code_checked": 94, "history_calls_judged": 500, "__nontrivial__": 300},
+            "thorough": {"flags_checked": 400000, "gate_absent_checked": 80000, "grad_entries_compared": 100000, "differential_compared": 8000, "garbage_compared": 8000, "exit_code_checked": 1906, "history_calls_judged": 12000, "__nontrivial__": 3000}}
 
 VARIANTS = ["mean", "stddev", "mixed_con", "filter_cvar", "filter_sort", "merged"]
 
@@ -256,6 +256,48 @@ def _judge_subset(obs, spec, pm, x, tag):
     return judged
 
 
+def _judge_history(obs, spec, pm, x, subsets, F):
+    """One evaluator object serves a history of combined evaluations whose failure pattern changes from call to call:
+    every call is judged on its own pattern (nothing may be carried over from an earlier call)."""
+    from ropt.ensemble_evaluator import EnsembleEvaluator  # noqa: PLC0415
+    from ropt.exceptions import OptimizationAborted  # noqa: PLC0415
+
+    R, P = spec["R"], spec["P"]
+    hist = dict(spec)
+    hist["nan"] = [dict(rule, call=k) for k, bits in enumerate(subsets) for rule in _rules(R, P, bits, F, bits % F)]
+    cfg = ens.make_config(hist)
+    ev = ens.RecordingEvaluator(hist)
+    ee = EnsembleEvaluator(cfg, None, ev, pm)
+    n_obj = len(spec["oweights"])
+    for k, bits in enumerate(subsets):
+        xk = x + 0.01 * k
+        n_calls = len(ev.calls)
+        try:
+            fres, gres = ee.calculate(xk, compute_functions=True, compute_gradients=True)
+        except OptimizationAborted:
+            obs.count("aborted_by_filter_or_estimator")
+            continue
+        except ValueError:
+            if spec.get("merge"):
+                obs.count("trivial.merged_empty_system")
+                continue
+            raise
+        finally:
+            # the evaluator's call counter selects the rules: one combined evaluation is one call
+            if len(ev.calls) != n_calls + 1:
+                obs.count("history_call_layout_unexpected")
+        c = ev.calls[-1]
+        allv = c.objectives if ev.n_con == 0 else np.hstack([c.objectives, c.constraints])
+        fvals, pvals = allv[:R], allv[R:].reshape(R, P, F)
+        obs.count("history_calls_judged")
+        obs.count("flags_checked", 2)
+        one = dict(spec)
+        one["nan"] = _rules(R, P, bits, F, bits % F)
+        one["x0"] = xk.tolist()
+        expected_functions(obs, one, cfg, fres, fvals[:, :n_obj], (fvals[:, n_obj:] if spec["n_con"] else None))
+        judge_gradient(obs, one, cfg, gres, fvals, pvals, f"history{k}", judge_merged_values=False)
+
+
 def _exit_case(case, obs):
     """Real optimizer step (SLSQP): TOO_FEW_REALIZATIONS iff the reference says functions or gradients are absent."""
     from ropt.enums import OptimizerExitCode  # noqa: PLC0415
@@ -347,6 +389,8 @@ def run_case(case, obs):
         n += 1
         if judged and bits:
             obs.count("judged_with_failures")
+    if case["mode"] == "sampled":
+        _judge_history(obs, spec, pm, x, list(subsets), F)
     case["spec_last"] = {k: v for k, v in spec.items() if k != "ensemble"}
     obs.nontrivial(case)
     obs.sample({"R": R, "P": P, "variant": variant, "rmin": spec["rmin"], "pmin": spec["pmin"], "subsets_in_case": n,
